@@ -4,23 +4,11 @@ Lemmas about the FBG model at ℝ (C16): literals, the right-hand side as comple
 -/
 import OptiVerif.Model.Fbg
 import OptiVerif.Lemmas.FiberNL
+import OptiVerif.Lemmas.NumList
 import OptiVerif.Lemmas.FbgOde
 
 namespace OptiVerif
 
-namespace NumList
-@[simp] theorem zero_real : (zero : ℝ) = 0 := by simp [zero]
-@[simp] theorem one_real : (one : ℝ) = 1 := by simp [one]
-@[simp] theorem two_real : (two : ℝ) = 2 := by simp [two]
-
-theorem absR_real (x : ℝ) : absR x = |x| := by
-  unfold absR
-  by_cases h : x < 0
-  · simp [h, abs_of_neg h]
-  · simp [h, abs_of_nonneg (not_lt.mp h)]
-
-theorem le_real (a b : ℝ) : (le a b = true) ↔ a ≤ b := by simp [le]
-end NumList
 
 namespace Fbg
 open OptiVerif.Fourier OptiVerif.Fiber OptiVerif.NumList Complex
